@@ -17,6 +17,7 @@
 #include "runtime/instruction_set.h"
 #include "opcodes/common.h"
 #include "operators/ops.h"
+#include "operators/ops_hashmap.h"
 #include "parser/sqf/sqf_parser.hpp"
 #include "parser/config/config_parser.hpp"
 #include "parser/preprocessor/default.h"
@@ -87,6 +88,7 @@ static std::string handle(const std::string& verb, const std::vector<std::string
         else if (verb == "run") { return vh::verb_run(f, false); }
         else if (verb == "trace") { return vh::verb_run(f, true); }
         else if (verb == "start") { return vh::verb_start(f); }
+        else if (verb == "eq") { return vh::verb_eq(f); }
         else { return "bad-verb"; }
     }
     catch (const std::exception& ex)
